@@ -115,7 +115,15 @@ func (f *File) readDataDesc() error {
 	if desc.Signature != dataDescriptorSignature {
 		return errors.New("data descriptor signature is missing")
 	}
-	if f.UncompressedSize >= uint32Max || desc.UncompressedSize != uint32(f.UncompressedSize) || desc.CompressedSize != uint32(f.CompressedSize) {
+	is64 := f.UncompressedSize >= uint32Max || desc.UncompressedSize != uint32(f.UncompressedSize) || desc.CompressedSize != uint32(f.CompressedSize)
+	if !is64 && f.UncompressedSize == 0 && f.lfh.ReaderVersion >= zip45 {
+		// An empty member looks the same through both layouts: the upper half
+		// of a 64-bit compressed size is zero, just like a 32-bit uncompressed
+		// size. Writers that use the 64-bit layout (this package among them)
+		// mark the member as needing ZIP64 support.
+		is64 = true
+	}
+	if is64 {
 		// 64-bit
 		if _, err := f.r.ReadAt(f.ddb[dataDescriptorLen:], pos+dataDescriptorLen); err != nil {
 			return err
